@@ -50,6 +50,22 @@ func normExport(b []byte) []byte { return sourceLocRe.ReplaceAll(b, []byte(`"sou
 
 func RunC17(tier string, seed int64, outDir string, replay string) (*core.Result, error) {
 	res := core.NewResult("C17", tier, seed)
+	if replay != "" {
+		if sc := spellReplay(replay); sc != nil {
+			spellingLeg(res, "C17", seed, 1, sc)
+			return res, nil
+		}
+	}
+	defer func() {
+		if replay == "" {
+			k := 12
+			if tier == "thorough" {
+				k = 120
+			}
+			spellingLeg(res, "C17", seed, k, nil)
+			res.Rule += "; config leg: random projects with a genqlient.yaml using relative paths (schema by one glob, one operations entry per definition, the last one outside the project directory) read through ReadAndValidateConfig from 5 (working directory, config path) spellings: same acceptance, byte-identical Go and export files"
+		}
+	}()
 	res.Rule = "random operation sets (incl. names equal up to case, shared and nested fragments, same-named bound packages) generated from the canonical one-file layout and from 3 random layouts each (split over 1-3 files with .graphql/.gql/.graphqls extensions in any grouping and order, `# @genqlient` literals raw or interpreted in 5 expression contexts, leading blank lines); outputs compared byte-wise (export JSON modulo sourceLocation); non-trivial = canonical layout accepted; distinct by (definitions, layout)"
 	n := 50
 	if tier == "thorough" {
